@@ -29,6 +29,13 @@ def run_impl(prog, machine_cls=None):
     m = (machine_cls or hgm.Machine)()
     try:
         obs = m.run(prog["ops"])
+        if m.exc and getattr(m, "rev_used", False):
+            # an operation raised: what a raising fill / += leaves behind depends on the order in
+            # which a Label visits its children (C10-iadd-partial, C12), which the model fixes as
+            # the sorted one - such programs run with sorted insertion order only
+            m = (machine_cls or hgm.Machine)()
+            m.norev = True
+            obs = m.run(prog["ops"])
         return {"obs": obs, "exc": m.exc, "crash": None, "machine": m}
     except Exception as e:  # harness-level crash: the implementation did something the
         # executor does not expect (reported, never silently dropped)
@@ -59,13 +66,15 @@ def first_diff(impl_obs, model_hashes, ops=None, extra=None, mode="base"):
 
 
 def shrink(prog, still_bad, budget=25):
-    """drop ops (never the 'new' ops other ops refer to) while the predicate holds"""
+    """neutralise fills (weight 0.0: a gated no-op in the implementation and in the model) while the
+    predicate holds.  Ops are never removed: the oracles address observations by position
+    (prog["meta"]), so the replay must keep every index."""
     ops = list(prog["ops"])
     i = len(ops) - 1
     tries = 0
     while i >= 0 and tries < budget:
-        if ops[i][0] in ("fill", "fillnp", "snapall", "eq", "hash", "repr"):
-            cand = ops[:i] + ops[i + 1:]
+        if ops[i][0] == "fill" and len(ops[i]) == 4 and ops[i][3] != 0.0:
+            cand = ops[:i] + [[ops[i][0], ops[i][1], ops[i][2], 0.0]] + ops[i + 1:]
             tries += 1
             p2 = dict(prog, ops=cand)
             try:
@@ -131,9 +140,9 @@ def main():
                 corpus_n += 1
     progs += mod.gen_programs(rng, n, tier)
 
-    # --- implementation
-    impl = [run_impl(p, getattr(mod, "Machine", None)) for p in progs]
-    # --- model (both instances), only if the model built
+    # --- model (both instances), only if the model built; the implementation is run program by
+    # program in the loop below so that only one machine (with all its aggregators) is alive at a time
+    impl = []
     model = None
     model_err = None
     if proof["build_ok"]:
@@ -155,7 +164,8 @@ def main():
     for i, p in enumerate(progs):
         for o in p["ops"]:
             stats["ops_by_kind"][o[0]] = stats["ops_by_kind"].get(o[0], 0) + 1
-        r = impl[i]
+        r = run_impl(p, getattr(mod, "Machine", None))
+        impl.append({"obs": r["obs"], "exc": r["exc"], "crash": r["crash"]})
         for c in r["exc"]:
             stats["exc_classes"][c] = stats["exc_classes"].get(c, 0) + 1
         if r["crash"]:
@@ -182,7 +192,13 @@ def main():
             if d is not None:
                 stats["tie_mismatch"] += 1
                 tie_broken.append((i, d))
-        fails = mod.oracle(p, r, exact)
+        try:
+            fails = mod.oracle(p, r, exact)
+        except Exception as e:  # noqa: BLE001
+            # the oracle itself could not evaluate the implementation's state (a shape it does not
+            # expect): the property is not shown to hold on this program
+            fails = [{"clause": "the oracle evaluates the property on this program",
+                      "diff": "oracle raised %s: %s" % (type(e).__name__, str(e)[:300])}]
         if fails:
             stats["oracle_fail"] += 1
             kf = match_known(known, pid, p, fails, mod)
@@ -192,7 +208,10 @@ def main():
             else:
                 def bad(q):
                     rr = run_impl(q, getattr(mod, "Machine", None))
-                    return rr["crash"] is None and bool(mod.oracle(q, rr, exact))
+                    try:
+                        return rr["crash"] is None and bool(mod.oracle(q, rr, exact))
+                    except Exception:  # noqa: BLE001
+                        return True
                 sp = p if getattr(mod, "NO_SHRINK", False) else shrink(p, bad)
                 violations.append((common.write_replay(pid, "oracle%d" % i, dict(
                     sp, property=pid, failures=fails, tie_agrees=agree, exact_safe=exact)), "oracle"))
@@ -296,7 +315,11 @@ def replay(P, mod, path):
     mo = emit.run_models([p["ops"]], instances=("F64", "Xq"), extra=getattr(mod, "EMIT", None),
                          mode=getattr(mod, "MODE", "base"))[0]
     d = first_diff(r["obs"], mo["F64"], p["ops"], getattr(mod, "EMIT", None), getattr(mod, "MODE", "base"))
-    fails = mod.oracle(p, r, mo["F64"] == mo["Xq"])
+    try:
+        fails = mod.oracle(p, r, mo["F64"] == mo["Xq"])
+    except Exception as e:  # noqa: BLE001
+        fails = [{"clause": "the oracle evaluates the property on this program",
+                  "diff": "oracle raised %s: %s" % (type(e).__name__, str(e)[:300])}]
     print("correspondence:", "agree" if d is None else jdump(d))
     print("oracle:", "holds" if not fails else jdump(fails)[:3000])
     if d is not None or fails:
@@ -306,4 +329,17 @@ def replay(P, mod, path):
 
 
 if __name__ == "__main__":
-    main()
+    try:
+        main()
+    except SystemExit:
+        raise
+    except BaseException as e:  # noqa: BLE001
+        # the machinery itself failed on this tree (e.g. the attribute walker met a structure it does
+        # not know): the property is no longer shown to hold
+        pid_ = sys.argv[1] if len(sys.argv) > 1 else "?"
+        path_ = common.write_replay(pid_, "harness_error", {
+            "property": pid_, "ops": [], "error": "%s: %s" % (type(e).__name__, e),
+            "traceback": traceback.format_exc()[-4000:]})
+        print(traceback.format_exc()[-2000:])
+        print("VIOLATION property=%s replay=%s no-failing-input-found" % (pid_, path_))
+        sys.exit(1)
